@@ -171,6 +171,9 @@ impl Module for M {
         let base = Polyline::new(&vs);
         let pl = if stream == "poly.translated" { base.translate(d) } else { base };
         let pts: Vec<Point> = pl.points().collect();
+        if pts.len() <= 300 {
+            iter_protocol_check(ctx, "iterator-protocol:polyline-points", pl.points(), 300);
+        }
         // the union of the segment lines, joints once
         let moved: Vec<Point> = vs.iter().map(|p| *p + d).collect();
         let spec = union_spec(&moved);
